@@ -13,7 +13,7 @@ for d in "$@"; do
 import json,sys
 r=json.load(open(sys.argv[1]+'/benign.json'))
 bad={p:(v['exit'],[l.strip()[:140] for l in v['lines'] if 'key:' in l or 'BROKEN' in l or 'INCONCL' in l or 'BUILD' in l][:3]) for p,v in r.get('checks',{}).items() if v['exit']!=0}
-print(sys.argv[1].split('/')[-1], 'applies', r.get('applies'), 'builds', r.get('builds'), 'ALARMS' if bad else 'silent', bad if bad else '', flush=True)
+print(sys.argv[1].split('/')[-1], 'applies', r.get('applies'), 'builds', r.get('builds'), ('ALARMS' if bad else 'silent') if (r.get('applies') and r.get('builds') and r.get('checks')) else 'NOT-RUN', bad if bad else '', flush=True)
 PY
   rm -f $d/benign.log
 done
